@@ -682,6 +682,11 @@ def _tail_returns_only(stmts) -> bool:
             # `try: ...; return V` / `except E: return W` as the last statement: the returns are tails of the try's own paths
             if not _tail_returns_only(s.body) or not all(_tail_returns_only(h.body) for h in s.handlers):
                 return False
+        elif isinstance(s, (ast.With, ast.AsyncWith)) and last:
+            # `with X as f: return E`: the value is computed inside the block either way; only the moment the block is left moves
+            # past an assignment of a local, which nothing can observe
+            if not _tail_returns_only(s.body):
+                return False
         elif any(isinstance(x, ast.Return) for x in ast.walk(s)):
             return False
     return True
@@ -814,6 +819,9 @@ def _inline_helpers(fn, helpers: Dict[str, ast.AST], in_class: bool):
                 for h in s.handlers:
                     h.body = tail_map(h.body, mk) or [ast.Pass()]
                 out.append(s)
+            elif i == len(stmts) - 1 and isinstance(s, (ast.With, ast.AsyncWith)):
+                s.body = tail_map(s.body, mk) or [ast.Pass()]
+                out.append(s)
             else:
                 out.append(s)
         return out
@@ -939,6 +947,8 @@ def _always_returns(stmts) -> bool:
         return _always_returns(last.body) and _always_returns(last.orelse)
     if isinstance(last, ast.Try) and not last.finalbody and not last.orelse:
         return _always_returns(last.body) and all(_always_returns(h.body) for h in last.handlers)
+    if isinstance(last, (ast.With, ast.AsyncWith)):
+        return _always_returns(last.body)
     return False
 
 
